@@ -192,7 +192,10 @@ func vfC17PairState(r1, r2 []uint8, sel []bool, w []float64) (differing bool, us
 	return
 }
 
-func vfC17Skeleton(n, L int, minusOneRegion bool) {
+// mode: 0 = every alignment in which no pair reaches the optimiser (the region of the known
+// finding is excluded when it is listed); 1 = only the region of the finding; 2 = only alignments
+// without any unambiguous difference.
+func vfC17Skeleton(n, L int, mode int) {
 	al, rows := vfC17Align(n, L, vfC17Letters)
 	removegaps := nondetBool()
 	passed, w := vfC17Weights(L)
@@ -211,9 +214,10 @@ func vfC17Skeleton(n, L int, minusOneRegion bool) {
 			}
 		}
 	}
-	if minusOneRegion {
+	switch {
+	case mode == 1:
 		assume(anyRegion)
-	} else if verifKnown("C17-mldist-minus-one") {
+	case mode == 2 || verifKnown("C17-mldist-minus-one"):
 		assume(!anyRegion)
 	}
 	p, _, dist, err := m.MLDist(al, passed)
@@ -228,9 +232,7 @@ func vfC17Skeleton(n, L int, minusOneRegion bool) {
 			verifAssert(dist.At(i, j) == dist.At(j, i), "symmetric")
 			verifAssert(differing || dist.At(i, j) == 0, "pair without unambiguous difference is at 0")
 			verifAssert(dist.At(i, j) >= 0 && dist.At(i, j) <= PROT_DIST_MAX, "distance in [0,20]")
-			if differing {
-				verifReach("differing pair without usable site")
-			} else {
+			if !differing {
 				verifReach("pair without difference")
 			}
 		}
@@ -243,11 +245,25 @@ func vfC17Skeleton(n, L int, minusOneRegion bool) {
 func H_C17_mldist_skeleton() {
 	switch nondetRange(0, 2) {
 	case 0:
-		vfC17Skeleton(2, 1, false)
+		vfC17Skeleton(2, 1, 0)
 	case 1:
-		vfC17Skeleton(2, 2, false)
+		vfC17Skeleton(2, 2, 0)
 	default:
-		vfC17Skeleton(3, 1, false)
+		vfC17Skeleton(3, 1, 0)
+	}
+}
+
+// H_C17_mldist_nodiff: MLDist on alignments without any unambiguous difference: the zero matrix (n x n, symmetric, zero diagonal).
+// bounds: n = 2 with L <= 2, n = 3 with L = 1; residues symbolic in {A,R,N,-,X,*,B}; gap-site removal symbolic; weights nil or symbolic dyadic k/2, k=0..4; every pair agrees at every site where both residues are unambiguous
+// outside: pairs with a difference (optimiser: not applicable; without usable site: H_C17_mldist_skeleton); IEEE rounding is outside the claim: floats are exact reals
+func H_C17_mldist_nodiff() {
+	switch nondetRange(0, 2) {
+	case 0:
+		vfC17Skeleton(2, 1, 2)
+	case 1:
+		vfC17Skeleton(2, 2, 2)
+	default:
+		vfC17Skeleton(3, 1, 2)
 	}
 }
 
@@ -256,7 +272,7 @@ func H_C17_mldist_skeleton() {
 // outside: IEEE rounding is outside the claim: floats are exact reals
 //verif: tier=thorough
 func H_C17_mldist_skeleton_deep() {
-	vfC17Skeleton(3, 2, false)
+	vfC17Skeleton(3, 2, 0)
 }
 
 // K_C17_mldist_minus_one: demonstrates the known finding C17-mldist-minus-one: a pair with an unambiguous difference but no usable site (e.g. B vs A, or the differing site has weight 0 / is removed as gapped) is reported at -1, outside [0,20].
@@ -264,5 +280,5 @@ func H_C17_mldist_skeleton_deep() {
 // outside: IEEE rounding is outside the claim: floats are exact reals
 //verif: known=C17-mldist-minus-one expect=violation
 func K_C17_mldist_minus_one() {
-	vfC17Skeleton(2, 1, true)
+	vfC17Skeleton(2, 1, 1)
 }
